@@ -59,6 +59,21 @@ func GenDerived(t *rapid.T, base Table, maxSteps int) Derived {
 	mask := make([]int, n)
 	if n <= 600 {
 		rank = rapid.Permutation(Iota(n)).Draw(t, "rank")
+		if n >= 3 && rapid.IntRange(0, 7).Draw(t, "endsfixed") == 0 {
+			// a permutation that leaves the first and the last row where they are: an index that starts with row 0,
+			// ends with row n-1 and holds n rows is still not the identity
+			for i, v := range rank {
+				switch v {
+				case 0:
+					rank[i], rank[0] = rank[0], 0
+				}
+			}
+			for i, v := range rank {
+				if v == n-1 {
+					rank[i], rank[n-1] = rank[n-1], n-1
+				}
+			}
+		}
 		for i := range mask {
 			mask[i] = rapid.IntRange(0, 3).Draw(t, "mask")
 		}
